@@ -157,4 +157,36 @@ CHECKS["C10"] = dict(
           run("c10_d4", "c10.cpp", "prod", shards=16, args=["--depth", "4", "--deadline", "1500"], tiers=("thorough",)),
           run("c10_d5", "c10.cpp", "prod", shards=16, args=["--depth", "5", "--min-evolves", "2", "--deadline", "3000"], tiers=("thorough",))],
 )
+
+HIST_NOTE = ("pool of SU_vector slots and user buffers; alphabet = reset, sized / external / copy / move construction, copy / move assignment, 13 expression forms (all value-category overloads of + - unary- "
+             "*s s* ElementwiseProduct) as assignment and as constructor argument over all slot combinations, SetBackingStore, writes to slots and buffers, ==; roots = empty pool and caches pre-filled to 31 and 32 blocks; "
+             "allocator alignment answers {0 mod 32, 16 mod 32}; breadth-first search over histories replayed on the real objects, deduplicated by a canonical key of public observations "
+             "(minimised over slot / buffer permutations), run to closure")
+CHECKS["C08"] = dict(
+    level=MC, engine="history-explorer",
+    technique="explicit-state breadth-first search over operation histories replayed on the real objects, to closure of a canonical abstract state; reference model of value semantics with frame conditions",
+    rule=HIST_NOTE + "; quick: 2 slots + 1 buffer, dims {2,3} to closure and 3 slots + 2 buffers to depth 3; thorough: 3 slots + 2 buffers, dims {2,3} and {2,3,4}, all three alignment modes, to closure. "
+         "Oracle: destination holds the model value, every other slot and buffer bit-identical (frame), consumed sources valid and exclusive, no two slots on one block, external storage never replaced or freed, ledger clean",
+    assumptions=["component values are not part of the abstract state (no branch of the storage logic reads a component)", "at most 3 vectors and 2 user buffers alive at once",
+                 "cached blocks enter the key as a multiset of (length, alignment)"],
+    runs=[run("hist_c08_small", "hist.cpp", "asan", args=["--mode", "c08", "--slots", "2", "--bufs", "1", "--dims", "2.3", "--align", "0.1"], tiers=("quick",)),
+          run("hist_c08_d3", "hist.cpp", "asan", args=["--mode", "c08", "--slots", "3", "--bufs", "2", "--dims", "2.3", "--align", "0", "--depth", "3"], tiers=("quick",)),
+          run("hist_c08_full", "hist.cpp", "asan", args=["--mode", "c08", "--slots", "3", "--bufs", "2", "--dims", "2.3", "--align", "0.1.2", "--deadline", "3000"], tiers=("thorough",)),
+          run("hist_c08_d4", "hist.cpp", "asan", args=["--mode", "c08", "--slots", "3", "--bufs", "2", "--dims", "2.3.4", "--align", "0.1", "--deadline", "5000"], tiers=("thorough",))],
+)
+
+CHECKS["C15"] = dict(
+    level=MC, engine="history-explorer",
+    technique="explicit-state breadth-first search over operation histories (vectors: to closure; vectors + solver objects: all histories to a depth) under ASan/UBSan with an allocation ledger and a teardown probe",
+    rule=HIST_NOTE + "; plus the wide alphabet: list / matrix constructors with valid and invalid sizes, invalid sized / external constructors, factories with valid and invalid arguments, GetComponents, GetGSLMatrix, "
+         "GetEigenSystem, Transpose, Real/Imag, Rotate (plane and matrix, also of a wrong size), RotateToB0/B1, UTransform / UDaggerTransform, UTransform(v,i) (matrix exponential), both WeightedRotation overloads, Evolve "
+         "(3 forms), commutators, compound assignments, scalar product - every slot combination, including all dimension mismatches (exceptions). Oracle: AddressSanitizer + UBSan (alignment, bounds, null, overflow, "
+         "shift, vla), ledger (double / foreign / interior delete[]), storage validity of every slot, user-buffer guard zones, and after every transition the teardown probe: destroy everything, clear_mem_cache(), "
+         "no block may remain live. Solver objects: see the c15s run",
+    assumptions=["GSL's own malloc blocks are checked by LeakSanitizer in the solver run only", "at most 3 vectors / 2 buffers; dimensions {2,3} in the closure run, 2..6 in the solver histories"],
+    runs=[run("hist_c15_a1", "hist.cpp", "asan", args=["--mode", "c15", "--slots", "2", "--bufs", "1", "--dims", "2.3", "--align", "1"], tiers=("quick", "thorough")),
+          run("hist_c15_a0_d4", "hist.cpp", "asan", args=["--mode", "c15", "--slots", "2", "--bufs", "1", "--dims", "2.3", "--align", "0", "--depth", "4"], tiers=("quick",)),
+          run("hist_c15_a0", "hist.cpp", "asan", args=["--mode", "c15", "--slots", "2", "--bufs", "1", "--dims", "2.3", "--align", "0", "--deadline", "3000"], tiers=("thorough",), timeout={"thorough": 5000}),
+          run("hist_c15_3slots", "hist.cpp", "asan", args=["--mode", "c15", "--slots", "3", "--bufs", "2", "--dims", "2.3", "--align", "1", "--deadline", "3000"], tiers=("thorough",), timeout={"thorough": 5000})],
+)
 NOT_APPLICABLE = {}
